@@ -24,8 +24,12 @@ TReadRet == /\ Is("ReadRet") /\ l' = l + 1
             /\ delivered' = delivered + Trace[l].n /\ UNCHANGED <<intact, total, ended>>
 \* the first damaged or forged frame (or the end of the stream) makes Read report an error;
 \* an untouched stream is delivered completely before the end-of-stream error
+\* (inline runs: the tampered frames arrived in the segment that completed the client's handshake and Dial itself reported
+\* the damage - legitimate only if there WAS damage; what preceded it in that segment is lost with the connection)
 TEnd == /\ Is("End") /\ l' = l + 1 /\ Trace[l].err # ""
-        /\ (intact = total => delivered = total)
+        /\ LET byHs == "hs" \in DOMAIN Trace[l] /\ Trace[l].hs IN
+             /\ (byHs => Trace[l].damaged)
+             /\ ((intact = total /\ ~byHs) => delivered = total)
         /\ ended' = TRUE /\ UNCHANGED <<intact, total, delivered>>
 TNext == TReset \/ TPlan \/ TReadRet \/ TEnd
 TraceSpec == TInit /\ [][TNext]_tvars
